@@ -191,6 +191,9 @@ MUTANTS = {
                                                              """        "octoprint.comm.protocol.gcode.sending": __plugin_implementation__.handleGcodeQueuing""")]),
     "gcode-hook-subcode-renamed": (["C01", "C06", "C15"], [(I, "self, commInstance, phase, cmd, cmdType, gcode, subcode=None, tags=None",
                                                    "self, commInstance, phase, cmd, cmdType, gcode, subCode=None, tags=None")]),
+    # ---- beyond a recorded finding: K1 is recognised by its exact arithmetic, another wrong centre for an oblique chord is not K1
+    "rform-centre-off-by-0.1pct-for-oblique-chords": (["C16"], [(H, "                centerY = midY + e * h * sy\n",
+                                                                "                centerY = midY + e * h * sy * (1.001 if (deltaX * deltaY) else 1.0)\n")]),
     "not-an-event-handler": (["C11", "C13"], [(I, "        octoprint.plugin.EventHandlerPlugin\n", "        object\n")]),
 }
 
